@@ -131,7 +131,7 @@ def run_config(pid, hname, cfg, tier, seed, opts):
                 res['discharged'] += 1
                 if status == 'unsat-normal-form':
                     res['normal_form'] += 1
-                elif status in ('unsat-trivial', 'unsat-concrete'):
+                elif status in ('unsat-trivial', 'unsat-concrete', 'unsat-concrete-only'):
                     res['trivial'] += 1
                 else:
                     res['nontrivial'] += 1
@@ -153,6 +153,9 @@ def run_config(pid, hname, cfg, tier, seed, opts):
             if sm is not None:
                 vals, env = sm
                 CW, exc = run_concrete(hrun, cfg, vals, seed)
+                conly = [(n, d) for n, st, d in CW.obs if st == 'fail-concrete-only']
+                if conly:
+                    res['candidates'].append({'ob': conly[0][0], 'values': vals, 'path': res['paths']})
                 if exc is None:
                     res['validation']['cases'] += 1
                     bad = []
@@ -197,7 +200,7 @@ def run_config(pid, hname, cfg, tier, seed, opts):
         if key in seen and len(confirmed) >= 1:
             continue
         CW, exc = run_concrete(hrun, cfg, cand['values'], seed)
-        fails = [(n, d) for n, st, d in CW.obs if st == 'fail']
+        fails = [(n, d) for n, st, d in CW.obs if st in ('fail', 'fail-concrete-only')]
         if exc is not None and exc != 'assumption':
             fails.append((f'exception:{type(exc).__name__}', {'exception': repr(exc)[:300]}))
         if fails:
@@ -470,7 +473,7 @@ def replay(pid, mod, path):
     blob = json.load(open(path))
     hrun = mod.HARNESSES[blob['harness']]['run']
     CW, exc = run_concrete(hrun, blob['cfg'], blob['values'])
-    fails = [(n, d) for n, st, d in CW.obs if st == 'fail']
+    fails = [(n, d) for n, st, d in CW.obs if st in ('fail', 'fail-concrete-only')]
     if exc is not None and exc != 'assumption':
         fails.append((f'exception:{type(exc).__name__}', {'exception': repr(exc)[:300]}))
     print(json.dumps({'cfg': blob['cfg'], 'values': blob['values']}))
